@@ -537,7 +537,20 @@ class Engine:
     def feasible(self, p, extra=()):
         import time
         t0 = time.time()
-        from solve import checked
+        from solve import checked, abstract_products
+        if self.stats["unknown_feasibility"] >= 2:
+            # The exact (nonlinear) feasibility queries of this function keep timing out: from here
+            # on branches are pruned with the product abstraction only (products of unknowns become
+            # uninterpreted terms). The abstraction over-approximates, so `unsat` still proves the
+            # branch infeasible; anything else keeps the path and later queries decide.
+            memo = {}
+            s = z3.Solver()
+            s.add(*[abstract_products(e, memo) for e in list(p.exprs()) + list(extra)])
+            r = checked(s, min(self.lim.solver_ms, 3000))
+            self.stats["feasibility_queries"] += 1
+            self.stats["abstract_feasibility"] = self.stats.get("abstract_feasibility", 0) + 1
+            self.stats["solver_s"] += time.time() - t0
+            return r != z3.unsat
         s = z3.Solver()
         s.add(*p.exprs(), *extra)
         r = checked(s, self.lim.solver_ms)
